@@ -89,10 +89,57 @@ type c12World struct {
 	suites  [][]Req
 	goldens [][]Obs // per middleware: answers of a fresh, never-touched twin in the chosen debug mode
 	debug   bool
+	cur     []*CfgSpec // configuration each middleware currently has (changes with the retarget step)
+	base    []*CfgSpec
+	isAlt   []bool
+}
+
+// altSpec returns a valid configuration with lists of exactly the same lengths as c but other values
+// (every pattern secure, so it is valid under any switch combination c is valid under).
+func altSpec(c *CfgSpec) *CfgSpec {
+	d := *c
+	d.Origins = make([]OAtom, len(c.Origins))
+	for i, a := range c.Origins {
+		switch {
+		case a.Kind == oStar:
+			d.Origins[i] = a
+		case i%3 == 0:
+			d.Origins[i] = oPat(PatSpec{Scheme: "https", Host: "alt" + strconv.Itoa(i) + ".example"}, false, false)
+		case i%3 == 1:
+			d.Origins[i] = oPat(PatSpec{Scheme: "https", Subs: true, Host: "alt" + strconv.Itoa(i) + ".example", Port: 8443}, false, false)
+		default:
+			d.Origins[i] = oPat(PatSpec{Scheme: "https", Host: "alt" + strconv.Itoa(i) + ".example", Port: portAny}, false, false)
+		}
+	}
+	d.Methods = make([]MAtom, len(c.Methods))
+	for i, a := range c.Methods {
+		if a.Kind == mValid {
+			a = MAtom{"ALT" + strconv.Itoa(i), mValid, "ALT" + strconv.Itoa(i)}
+		}
+		d.Methods[i] = a
+	}
+	d.ReqHdrs = make([]HAtom, len(c.ReqHdrs))
+	for i, a := range c.ReqHdrs {
+		if a.Kind == hValid {
+			a = hv("X-Alt-" + strconv.Itoa(i))
+		}
+		d.ReqHdrs[i] = a
+	}
+	d.RespHdrs = make([]HAtom, len(c.RespHdrs))
+	for i, a := range c.RespHdrs {
+		if a.Kind == hValid {
+			a = hv("X-AltExp-" + strconv.Itoa(i))
+		}
+		d.RespHdrs[i] = a
+	}
+	return &d
 }
 
 func newC12World(specs []*CfgSpec, debug bool) (*c12World, error) {
 	w := &c12World{specs: specs, debug: debug}
+	w.base = []*CfgSpec{specs[0], specs[0], specs[1]}
+	w.cur = []*CfgSpec{specs[0], specs[0], specs[1]}
+	w.isAlt = []bool{false, false, false}
 	shared := specs[0].Config()
 	other := specs[1].Config()
 	build := []*cors.Config{&shared, &shared, &other}
@@ -141,7 +188,7 @@ func newC12World(specs []*CfgSpec, debug bool) (*c12World, error) {
 	return w, nil
 }
 
-var c12Kinds = []string{"poison-config-arg", "poison-config-result", "poison-handler-actual", "poison-handler-noncors", "poison-handler-options",
+var c12Kinds = []string{"retarget-via-mutated-arg", "poison-config-arg", "poison-config-result", "poison-handler-actual", "poison-handler-noncors", "poison-handler-options",
 	"requests", "reconfigure-same-then-poison", "config-result-append", "poison-handler-multi-origin"}
 
 func (w *c12World) apply(st c12Step, rng *rand.Rand) {
@@ -192,15 +239,47 @@ func (w *c12World) apply(st c12Step, rng *rand.Rand) {
 			serve(m, suite[rng.IntN(len(suite))])
 		}
 	case "reconfigure-same-then-poison":
-		var cfg cors.Config
-		if i < 2 {
-			cfg = w.specs[0].Config()
-		} else {
-			cfg = w.specs[1].Config()
-		}
+		cfg := w.cur[i].Config()
 		if err := m.Reconfigure(&cfg); err == nil {
 			poisonConfig(&cfg, "re")
 		}
+	case "retarget-via-mutated-arg":
+		// the caller overwrites, in place and element by element, the slices of the Config it handed in last with the
+		// values of another valid configuration of the same list lengths, then reconfigures to that configuration
+		// (from a fresh value): from now on the middleware must answer like a fresh middleware of the NEW configuration
+		target := altSpec(w.base[i])
+		if w.isAlt[i] {
+			target = w.base[i]
+		}
+		tcfg := target.Config()
+		fresh, err := cors.NewMiddleware(target.Config())
+		if err != nil {
+			return // not a valid target under these switches: skip
+		}
+		if old := w.cfgs[i]; old != nil {
+			if len(old.Origins) == len(tcfg.Origins) {
+				copy(old.Origins, tcfg.Origins)
+			}
+			if len(old.Methods) == len(tcfg.Methods) {
+				copy(old.Methods, tcfg.Methods)
+			}
+			if len(old.RequestHeaders) == len(tcfg.RequestHeaders) {
+				copy(old.RequestHeaders, tcfg.RequestHeaders)
+			}
+			if len(old.ResponseHeaders) == len(tcfg.ResponseHeaders) {
+				copy(old.ResponseHeaders, tcfg.ResponseHeaders)
+			}
+		}
+		if err := m.Reconfigure(&tcfg); err != nil {
+			return
+		}
+		fresh.SetDebug(w.debug)
+		// middlewares 0 and 1 were built from ONE shared Config value; after a retarget each owns its argument
+		w.cfgs[i] = &tcfg
+		w.cur[i] = target
+		w.isAlt[i] = !w.isAlt[i]
+		w.suites[i] = suiteFor(target.Sem())
+		w.goldens[i] = runSuiteAsIs(fresh, w.suites[i])
 	}
 }
 
@@ -264,7 +343,7 @@ func c12RunHistory(r *Run, l *Local, cs c12Case) {
 func TestVerif_C12(t *testing.T) {
 	r := newRun(t, "C12")
 	r.Rule("worlds of three live middlewares (two built from one shared Config value - one by NewMiddleware, one by Reconfigure on a zero value - and one with another configuration, reached by reconfiguring a middleware of a third configuration through passthrough) x debug x histories of adversarial steps: overwrite/re-slice/grow every slice of the Config argument after the call, of every Config() result, " +
-		"a wrapped handler overwriting in place (and beyond length, within capacity) every request- and response-header slice it can reach on every non-preflight path, ordinary requests of all kinds, Reconfigure with an equal configuration that is poisoned afterwards. After every step probes are compared with the answers of a fresh never-touched middleware (full suite after the last step). " +
+		"a wrapped handler overwriting in place (and beyond length, within capacity) every request- and response-header slice it can reach on every non-preflight path, ordinary requests of all kinds, Reconfigure with an equal configuration that is poisoned afterwards, and retargeting (the caller overwrites the slices it handed in with the values of another valid configuration of the same list lengths, then reconfigures to that configuration). After every step probes are compared with the answers of a fresh never-touched middleware (full suite after the last step). " +
 		"evaluation = one probe; non-trivial = distinct (world, history), by hash; every (step kind) x (probe kind) pair occurs. The race phase hammers shared middlewares from 16 goroutines under -race.")
 	r.Assume("the wrapped handler is the only adversary inside the request path: what a custom ResponseWriter or an outer middleware could reach on the preflight path (where the wrapped handler never runs) is outside the statement of C12")
 
